@@ -31,7 +31,8 @@ Init == /\ t \in { [ty |-> ty, class |-> cl, es |-> es, n |-> n] :
 
 Buf == Content(t.n)
 N == TblLen(t.ty, t.class, Buf)
-Idx == {W8(i) : i \in 0..(N + 2)} \cup {MaxW, MaxDiv(SizeFor(t.ty, t.class))}
+\* ... and the index after it, whose byte offset index * entsize wraps around 2^64 to a small one
+Idx == {W8(i) : i \in 0..(N + 2)} \cup {MaxW, MaxDiv(SizeFor(t.ty, t.class)), AddW(MaxDiv(SizeFor(t.ty, t.class)), W8(1))[1]}
 Ops == {<<"len">>, <<"empty">>, <<"iter">>, <<"into_iter">>} \cup {<<"get", i>> : i \in Idx}
 
 \* walks (Iter.tla): the provided Iterator methods on one iterator object of the table
